@@ -115,6 +115,9 @@ func bigBatchNoTrace(c *Ctx, be string) bool {
 		c.Violation(&Replay{Backend: be, Stream: "bigbatch", Case: []interface{}{J{"note": "41 documents of 512 KiB, the last one a duplicate _id"}}, Actual: []string{er.Line}, Note: "a batch containing a duplicate _id was accepted"})
 		return false
 	}
+	if be != "badger-mem" {
+		im.Reopen()
+	}
 	if after := im.Dump(); after != before {
 		c.Violation(&Replay{Backend: be, Stream: "bigbatch", Case: []interface{}{J{"note": "41 documents of 512 KiB, the last one a duplicate _id"}}, Expected: []string{fmt.Sprint(len(before))}, Actual: []string{fmt.Sprint(len(after))},
 			Note: "Insert returned " + er.Line + " but part of the batch is stored"})
@@ -191,6 +194,11 @@ func streamC04(c *Ctx) {
 						// no wedge: a later write goes through
 						fu := im.Exec(opLine("createCollection", J{"coll": hx("followup")}), -1, false)
 						fd := im.Exec(opLine("dropCollection", J{"coll": hx("followup")}), -1, false)
+						if strings.HasPrefix(fu.Line, "timeout") || strings.HasPrefix(fd.Line, "timeout") {
+							c.Violation(&Replay{Backend: be, Stream: "fault", Case: toIfaces(caseLines), Expected: []string{"ok unit"}, Actual: []string{fu.Line, fd.Line},
+								Note: fmt.Sprintf("after a store fault at call %d the handle is wedged: a later write never returns", k)})
+							return
+						}
 						if fu.Line != "ok unit" || fd.Line != "ok unit" {
 							c.Violation(&Replay{Backend: be, Stream: "fault", Case: toIfaces(caseLines), Expected: []string{"ok unit"}, Actual: []string{fu.Line, fd.Line},
 								Note: "after a failed operation the handle refuses a later write"})
